@@ -15,7 +15,8 @@ def gen_consumer(rng, sid):
     brokers = rng.choice([1, 2, 3])
     group = rng.random() < 0.75
     t_stop = rng.choice([0.0, 0.001, 0.003, 0.01, 0.05, 0.12, 0.3, 0.51, 0.9, 1.5, 2.2, 3.0])
-    cond = rng.choice(["healthy", "healthy", "all_down", "coord_down", "coord_move", "loading", "lost_reply"])
+    cond = rng.choice(["healthy", "healthy", "all_down", "coord_down", "coord_move", "loading", "lost_reply",
+                       "acl_revoked"])
     dt = rng.choice([0.0, 0.0005, 0.01, 0.09, 0.2, 1.0])
     topics = {"t0": rng.choice([1, 2, 3])}
     main = {"name": "c0", "group": "g" if group else None, "topics": ["t0"],
@@ -52,6 +53,10 @@ def gen_consumer(rng, sid):
         events.append({"at": at + 30.0, "op": "node_up", "node": coord})
     elif cond == "coord_move" and brokers > 1:
         events.append({"at": at, "op": "coord_move", "to": (coord + 1) % brokers, "keep_state": rng.random() < 0.5})
+    elif cond == "acl_revoked":
+        # the group ACL is withdrawn: Heartbeat/OffsetCommit/JoinGroup answer GROUP_AUTHORIZATION_FAILED, which
+        # ends the heartbeat task / coordination routine with an error before stop() is called
+        events.append({"at": at, "op": "deny_group", "on": True})
     elif cond == "loading":
         events.append({"at": at, "op": "loading", "on": True})
         events.append({"at": at + 20.0, "op": "loading", "on": False})
